@@ -219,6 +219,9 @@ func parseUpdateInterval(config *config.CRLConfig) error {
 		if err != nil {
 			return err
 		}
+		if duration <= 0 {
+			return fmt.Errorf("update_interval must be a positive duration, got %q", config.UpdateInterval)
+		}
 		config.UpdateIntervalParsed = duration
 	} else {
 		config.UpdateIntervalParsed = defaultCRLUpdateInterval
